@@ -26,6 +26,10 @@ func c07Known(c *Ctx, l *TLake) {
 		}
 		cs := c07Case{Check: "behav", Prog: OptProg{Stages: []string{"fork (=> pass => sort a)", "join on k=a"}}, Input: vals, SortKey: "k:asc"}
 		cs.check(c, l)
+		// a sort lifted into fork legs one of which ends in fuse: the inserted merge never sees
+		// the end of the stream, even on empty input
+		cs2 := c07Case{Check: "behav", Prog: OptProg{Stages: []string{"fork (=> fuse => pass)", "sort s"}}}
+		cs2.check(c, l)
 	}
 	for i := range c07KnownWitnesses {
 		cs := c07KnownWitnesses[i]
